@@ -5,6 +5,7 @@ import (
 	"fmt"
 	"os"
 	"strconv"
+	"strings"
 	"testing"
 
 	"verif/internal/wr"
@@ -42,4 +43,122 @@ func TestRepeat(t *testing.T) {
 		}
 		fmt.Println("doc", di, "distinct traces (anchors sorted):", seen, "maxoof", firstO.MaxOOF)
 	}
+}
+
+func TestPanics(t *testing.T) {
+	if os.Getenv("C15_PANICS") == "" {
+		t.Skip()
+	}
+	wr.Quiet()
+	n, _ := strconv.Atoi(os.Getenv("C15_N"))
+	sites := map[string]int{}
+	kinds := map[string]int{}
+	ex := map[string]string{}
+	for i := 0; i < n; i++ {
+		in := genCase(1, i, "thorough")
+		for di := range in.Docs {
+			d := &in.Docs[di]
+			o, _ := render(d, renderOpts{hook: true})
+			k := "hostile"
+			if len(d.HTML) > 30 && d.HTML[:26] == "<!DOCTYPE html><html lang=" && d.UA != "" {
+				k = "biased+ua"
+			} else if len(d.HTML) > 30 && d.HTML[:26] == "<!DOCTYPE html><html lang=" {
+				k = "biased"
+			}
+			kinds[k+":"+o.Kind]++
+			if paintMutates(d) {
+				kinds[k+":paintMutates"]++
+			}
+			if o.Kind != "trace" {
+				sites[k+" "+o.Lines[0]]++
+				if ex[k+" "+o.Lines[0]] == "" {
+					b, _ := json.Marshal(map[string]any{"property": "C15", "input": input{Kind: "det", Docs: []cdoc{*d}}})
+					ex[k+" "+o.Lines[0]] = string(b)
+				}
+			}
+		}
+	}
+	fmt.Println(kinds)
+	j := 0
+	for s, c := range sites {
+		fmt.Println(c, s)
+		os.WriteFile(fmt.Sprintf("/tmp/c15/panic%d.json", j), []byte(ex[s]), 0o644)
+		fmt.Printf("   /tmp/c15/panic%d.json\n", j)
+		j++
+	}
+}
+
+func TestStack(t *testing.T) {
+	f := os.Getenv("C15_STACK")
+	if f == "" {
+		t.Skip()
+	}
+	b, _ := os.ReadFile(f)
+	var w struct{ Input input }
+	json.Unmarshal(b, &w)
+	wr.Quiet()
+	d := &w.Input.Docs[0]
+	fmt.Println(d.HTML)
+	_, _ = wr.Render(wr.Opts{HTML: d.HTML, UserCSS: d.UserCSS, Hints: d.Hints, Engine: d.Engine, Files: d.Files})
+	fmt.Println("plain render OK; with UA:")
+	renderRaw(d)
+}
+
+// TestBisect drops body blocks (lines between <body> and </body>) while the outcome stays a panic.
+func TestBisect(t *testing.T) {
+	f := os.Getenv("C15_BISECT")
+	if f == "" {
+		t.Skip()
+	}
+	b, _ := os.ReadFile(f)
+	var w struct{ Input input }
+	json.Unmarshal(b, &w)
+	wr.Quiet()
+	d := w.Input.Docs[0]
+	i := strings.Index(d.HTML, "<body>")
+	j := strings.Index(d.HTML, "</body>")
+	head, tail := d.HTML[:i+6], d.HTML[j:]
+	blocks := strings.Split(d.HTML[i+6:j], "\n")
+	bad := func(bl []string) bool {
+		dd := d
+		dd.HTML = head + strings.Join(bl, "\n") + tail
+		o, _ := render(&dd, renderOpts{})
+		return o.Kind == "panic"
+	}
+	if !bad(blocks) {
+		t.Fatal("does not panic")
+	}
+	for k := 0; k < len(blocks); {
+		try := append(append([]string{}, blocks[:k]...), blocks[k+1:]...)
+		if bad(try) {
+			blocks = try
+		} else {
+			k++
+		}
+	}
+	fmt.Println(strings.Join(blocks, "\n"))
+	fmt.Println("engine", d.Engine, "hints", d.Hints, "usercss", d.UserCSS)
+}
+
+func TestMutates(t *testing.T) {
+	if os.Getenv("C15_MUT") == "" {
+		t.Skip()
+	}
+	hits := map[string]int{}
+	for i := 0; i < 60; i++ {
+		in := genCase(1, i, "thorough")
+		for di := range in.Docs {
+			tx := strings.ToLower(docText(&in.Docs[di]))
+			for _, k := range []string{"block-ellipsis", "line-clamp", "max-lines", "marks"} {
+				if strings.Contains(tx, k) {
+					hits[k]++
+					if k == "marks" {
+						j := strings.Index(tx, k)
+						fmt.Println(tx[max(0, j-30):j+10])
+					}
+				}
+			}
+		}
+	}
+	fmt.Println(hits)
 }
